@@ -103,6 +103,10 @@ pub struct Sim {
     pub idle_ticks: u64,
     pub max_idle_ticks: u64,
     pub max_idle_seen: u64,
+    /// Command lines handed to the parser so far (accepted or rejected), and how many are
+    /// allowed: a finite script cannot yield more lines than it has.
+    pub commands: u64,
+    pub max_commands: u64,
 
     /// Record `Exec` events (they are always counted).
     pub log_exec: bool,
@@ -125,6 +129,8 @@ impl Default for Sim {
             idle_ticks: 0,
             max_idle_ticks: u64::MAX,
             max_idle_seen: 0,
+            commands: 0,
+            max_commands: u64::MAX,
             log_exec: true,
             events: Vec::new(),
             baseline: None,
@@ -212,15 +218,34 @@ pub fn on_execute(pc: u16, instr: u16) {
 
 /// After a command has been read and parsed in `Debugger::run_command`.
 pub fn on_command(command: &dyn std::fmt::Debug) {
-    with(|sim| {
+    let flood = with(|sim| {
         sim.idle_ticks = 0;
+        sim.commands += 1;
+        if sim.commands > sim.max_commands {
+            return true;
+        }
         sim.events.push(Event::Cmd(format!("{:?}", command)));
+        false
     });
+    if flood == Some(true) {
+        // More commands than the script holds: the reader is handing out lines forever
+        unwind(SimStop::Spin);
+    }
 }
 
 /// Inside the error callback of `Command::read_from`.
 pub fn on_command_error(error: &dyn std::fmt::Display) {
-    with(|sim| sim.events.push(Event::CmdError(format!("{}", error))));
+    let flood = with(|sim| {
+        sim.commands += 1;
+        if sim.commands > sim.max_commands {
+            return true;
+        }
+        sim.events.push(Event::CmdError(format!("{}", error)));
+        false
+    });
+    if flood == Some(true) {
+        unwind(SimStop::Spin);
+    }
 }
 
 /// Top of `Debugger::run_command`.
